@@ -7,6 +7,7 @@ x ignored siblings x instances x 4 drafts.  Oracle: the designation model
 by the implementation; verdict and multiset of (instance path, keyword) of the
 errors must agree.
 """
+import collections
 import copy
 import json
 from urllib.parse import urljoin
@@ -92,6 +93,14 @@ def arrangements(d, name, T1, T2, full):
          {"definitions": {name + "2": T2}, "dependencies@": {name: {"items": [T1]}}}, {}),
         ("whole-document", ROOT, "other.json", "other.json#", defs, {other: T1}),
     ]
+    # two documents whose URLs differ only in a reserved character being percent-encoded: different resources
+    for tag, u1, u2 in (("slash", "a%2Fb.json", "a/b.json"), ("question", "f%3Fq.json", "f?q.json"),
+                        ("percent", "p%2541.json", "p%41.json"), ("colon-at", "u%40h.json", "u@h.json")):
+        d1, d2 = urljoin(ROOT, u1), urljoin(ROOT, u2)
+        for order in (0, 1):
+            docs = collections.OrderedDict([(d1, {"x": {name: T1}}), (d2, {"x": {name: T2}})][::1 if not order else -1])
+            out.append(("url-pair-%s-%d" % (tag, order), ROOT, u1 + "#" + enc(["x", name]), u2 + "#" + enc(["x", name]),
+                        defs, dict(docs)))
     return out
 
 
@@ -136,6 +145,81 @@ def observe(d, S, docs, x, split=None):
         return "RefResolutionError"
     except Exception as e:
         return "EXC " + type(e).__name__
+
+
+DECOY_T = {"type": "boolean"}
+
+
+def decoy_of(S, d):
+    """A schema with the same base URI and the same definition names, every definition meaning something else."""
+    idk = model.IDK[d]
+    D = {"definitions": {k: DECOY_T for k in (S.get("definitions") or {})} if isinstance(S, dict) else {}}
+    D["properties"] = {k: DECOY_T for k in (S.get("properties") or {})} if isinstance(S.get("properties"), dict) else {}
+    D["dependencies"] = {k: DECOY_T for k in (S.get("dependencies") or {})} if isinstance(S.get("dependencies"), dict) else {}
+    if idk in S:
+        D[idk] = S[idk]
+    return D
+
+
+def observe_mode(d, S, docs, x, mode):
+    """Other ways for the same documents to be available; the answer must be the same designation.
+      flaky        every handler-served document fails on its first request and is served from the second on;
+                   the instance is validated twice and the second answer is observed
+      late-store   the documents are missing (handler refuses) for a first validation and are then put into
+                   resolver.store; second answer observed
+      decoy-after  a second resolver for a decoy schema (same base URI, same names, other meanings) is constructed
+                   with the first resolver's store object before the validator under test is used
+      decoy-before the validator under test is constructed with the store object of a decoy's resolver"""
+    cls = _e1.CLS[d]
+    failed_once = set()
+    serving = {"on": mode != "late-store"}
+
+    def handler(uri):
+        for k, v in docs.items():
+            if model.dockey(k) == model.dockey(uri):
+                if not serving["on"]:
+                    raise IOError("not there yet")
+                if mode == "flaky" and k not in failed_once:
+                    failed_once.add(k)
+                    raise IOError("first request fails")
+                return copy.deepcopy(v)
+        raise KeyError(uri)
+
+    def errs(v):
+        try:
+            return sorted(((tuple(e.absolute_path), e.validator) for e in v.iter_errors(x)), key=repr)
+        except exceptions.RefResolutionError:
+            return "RefResolutionError"
+        except Exception as e:
+            return "EXC " + type(e).__name__
+
+    if mode in ("flaky", "late-store"):
+        r = RefResolver.from_schema(S, id_of=cls.ID_OF, store={}, handlers={"http": handler})
+        v = cls(S, resolver=r)
+        for _ in range(len(docs) + 1):
+            errs(v)                       # each attempt may stop at the first document that is not available yet
+            if mode == "late-store":
+                break
+        if mode == "late-store":
+            for k, doc in docs.items():
+                r.store[k] = copy.deepcopy(doc)
+        return errs(v)
+    store = {k: copy.deepcopy(v) for k, v in docs.items()}
+    D = decoy_of(S, d)
+    if mode == "decoy-after":
+        r = RefResolver.from_schema(S, id_of=cls.ID_OF, store=store, handlers={"http": handler})
+        v = cls(S, resolver=r)
+        r2 = RefResolver.from_schema(D, id_of=cls.ID_OF, store=r.store, handlers={"http": handler})
+        cls(D, resolver=r2).is_valid(x)
+        return errs(v)
+    r2 = RefResolver.from_schema(D, id_of=cls.ID_OF, store=store, handlers={"http": handler})
+    cls(D, resolver=r2).is_valid(x)
+    r = RefResolver.from_schema(S, id_of=cls.ID_OF, store=r2.store, handlers={"http": handler})
+    return errs(cls(S, resolver=r))
+
+
+MODES = ("flaky", "late-store", "decoy-after", "decoy-before")
+MODE_INST = 4       # the extra environment modes meet the first instances of the family
 
 
 def expected(d, S, docs, x):
@@ -223,7 +307,7 @@ def gen_two_slot(d, tier):
 def gen_nested_id(d, tier):
     """ids on the evaluation path (relative, absolute, doubly nested) with references relative to them."""
     idk = model.IDK[d]
-    for nested in ("sub/", "http://other.invalid/x/y.json", "sub/z.json", "../up.json", "y.json"):
+    for nested in ("sub/", "http://other.invalid/x/y.json", "sub/z.json", "../up.json", "y.json", "#anchor", "?q=1"):
         base = urljoin(ROOT, nested)
         for name in (("a", "~01", "a/b", "%25", "") if tier == "thorough" else ("a", "~01", "")):
             docs = {urljoin(base, "o.json"): {"x": {name: T_INT}}}
@@ -255,6 +339,8 @@ def gen_nested_id(d, tier):
                 if rin.startswith("http"):
                     wraps.append(("double", {"properties": {"a": {idk: nested, "properties": {
                         "a": {idk: "deeper/", "items": X}}}, "b": Y}}))
+                    wraps.append(("double-anchor", {"properties": {"a": {idk: nested, "properties": {
+                        "a": {idk: "#inner", "type": "object"}, "c": {"items": X}}}, "b": Y}}))
                 for wname, sk in wraps:
                     S = dict(sk)
                     S[idk] = ROOT
@@ -307,7 +393,7 @@ def plan(ctx):
     sizes = {}
     for d in _e1.DRAFTS:
         for fam, (gen, inst) in FAMILIES.items():
-            n = 12 if fam == "two-slot" else 1
+            n = 32 if fam == "two-slot" else (4 if fam == "nested-id" else 1)
             if ctx.thorough and fam == "two-slot":
                 n = 48
             units += [(d, fam, i, n) for i in range(n)]
@@ -318,8 +404,12 @@ def plan(ctx):
                  "scheme, store documents with and without own id, documents referring back, chains, targets in "
                  "properties/items, whole documents, minimal and fully percent-encoded spellings) x ignored "
                  "siblings x 15 instances; ids on the evaluation path (relative, absolute, double) x references "
-                 "relative to them; recursive schemas; each case run with store-only and with handler-served "
-                 "documents; the designation model inlines every reference and the inlined schema is validated by "
+                 "relative to them (anchor-like and query-only ids included); pairs of documents whose URLs "
+                 "differ only in the percent-encoding of a reserved character; recursive schemas; each case run "
+                 "with store-only and with handler-served documents, and for the first 4 instances also with a "
+                 "handler that fails once per document, with documents put into resolver.store after a failed "
+                 "validation, and with a decoy resolver (same base URI and names, other meanings) built from / "
+                 "feeding the resolver's store object; the designation model inlines every reference and the inlined schema is validated by "
                  "the implementation; distinct by construction (label is unique); non-trivial = the expected "
                  "error multiset is non-empty"),
         "bounds": {"names": len(NAMES if ctx.thorough else NAMES_Q), "instances": len(INST), "tier": ctx.tier},
@@ -360,6 +450,25 @@ def run_unit(unit, ctx):
                                           "handler_served": split},
                                  "detail": {"observed": bad[0], "expected": bad[1], "inlined": bad[2]}})
                 outcomes[key] = outcomes.get(key, 0) + 1
+        for x in inst[:MODE_INST]:
+            exp, I = expected(d, S, docs, x)
+            if exp is None:
+                continue
+            for mode in MODES:
+                if mode in ("flaky", "late-store") and not docs:
+                    continue
+                ev += 1
+                got = observe_mode(d, S, docs, x, mode)
+                if exp:
+                    nt += 1
+                key = "agree-" + mode if got == exp else "DISAGREE-" + mode
+                outcomes[key] = outcomes.get(key, 0) + 1
+                if got != exp:
+                    viol.append({"signature": "C02|environment=%s|%s" % (mode, classify(d, S, x, got, exp)),
+                                 "size": len(str(S)) + len(str(x)),
+                                 "case": {"draft": d, "label": label, "schema": S, "docs": docs, "instance": x,
+                                          "mode": mode},
+                                 "detail": {"observed": got, "expected": exp, "inlined": I}})
         if len(samples) < 1 and nsch % 211 == 17:
             samples.append({"draft": d, "label": label, "schema": S, "docs": docs})
     return {"evaluations": ev, "nontrivial": nt, "violations": viol, "samples": samples, "outcomes": outcomes,
@@ -367,5 +476,9 @@ def run_unit(unit, ctx):
 
 
 def replay(case, ctx):
+    if case.get("mode"):
+        exp, I = expected(case["draft"], case["schema"], case["docs"], case["instance"])
+        got = observe_mode(case["draft"], case["schema"], case["docs"], case["instance"], case["mode"])
+        return {"reproduced": exp is not None and got != exp, "observed": got, "expected": exp}
     bad, sig = check(case["draft"], case["schema"], case["docs"], case["instance"], case.get("handler_served"))
     return {"reproduced": bad is not None, "observed_expected_inlined": bad, "signature": sig}
